@@ -562,3 +562,51 @@ def lfn_histories(seed, quick):
         ops = prologue() + [O('iterate_lfn', d='d0', buf=780), O('iterate_lfn', d='d0', buf=7), O('iterate', d='d0')] + epilogue()[:2]
         H.append(dict(id='LG%d' % k, src='lfn-garbage', image=dict(vols=[v]), bounds=bounds, limits=[4, 4, 1], ops=ops, chk='listing'))
     return H
+
+# ------------------------------------------------------------------------------------------------
+# C15: valid layouts over the quantifier's dimensions
+
+def mount_geometries(seed, quick):
+    """volume specs covering blocks per cluster 1..128, reserved blocks, 1-2 FATs, root entry counts, 16/32-bit
+    totals, partition slots and offsets, and the FAT16/FAT32 cluster-count boundaries"""
+    rng = random.Random(seed + 15)
+    out = []
+    combos = []
+    for fat32 in (False, True):
+        for bpc in (1, 2, 4, 8, 16, 32, 64, 128):
+            for clusters in ((4085, 4086, 20000, 65524) if not fat32 else (65525, 65526, 70000)):
+                combos.append((fat32, bpc, clusters))
+    for k, (fat32, bpc, clusters) in enumerate(combos):
+        if quick and k % 3 != seed % 3 and clusters not in (4085, 65524, 65525):
+            continue
+        reserved = rng.choice([1, 2, 8, 63]) if not fat32 else rng.choice([7, 32, 100])
+        v = dict(fat32=fat32, clusters=clusters, bpc=bpc, nfats=rng.choice([1, 2]), lba=rng.choice([1, 63, 2048, 100000]), slot=k % 4,
+                 ptype=rng.choice([4, 6, 0x0E]) if not fat32 else rng.choice([0x0B, 0x0C]), reserved=reserved)
+        if fat32:
+            v['root_cluster'] = rng.choice([2, 2, 3, 9])
+            v['fsinfo'] = rng.choice([1, 2, reserved - 1])
+        else:
+            v['root_entries'] = rng.choice([16, 32, 112, 512])
+            v['total16'] = rng.random() < 0.5
+        low = [c for c in range(2, 30) if c != v.get('root_cluster')][:6]
+        root, used = tree_T1(low, bpc)
+        v['window'] = sorted(set(low[:used] + [clusters + 1] + ([v['root_cluster']] if fat32 else [])))
+        v['root'] = root
+        if fat32:
+            v['info_next'] = 'first'
+        out.append(v)
+    return out
+
+def mount_histories(seed, quick):
+    H = []
+    for k, v in enumerate(mount_geometries(seed, quick)):
+        upc = v['bpc']
+        ops = [O('open_volume', idx=v['slot'], as_='v0'), O('open_root', v='v0', as_='d0'), O('iterate', d='d0'), O('label', v='v0'),
+               O('open_file', d='d0', name='README.TXT', mode='ReadOnly', as_='f0'), O('read', f='f0', n=upc + 2), O('close_file', f='f0'),
+               O('open_dir', d='d0', name='TEST', as_='d1'), O('iterate', d='d1'),
+               O('open_file', d='d1', name='TEST.DAT', mode='ReadOnly', as_='f1'), O('read', f='f1', n=1), O('seek_start', f='f1', u=upc - 1),
+               O('read', f='f1', n=3), O('close_file', f='f1'),
+               O('open_file', d='d1', name='NEW.BIN', mode='Create', as_='f2'), O('write', f='f2', n=upc + 1), O('close_file', f='f2'),
+               O('close_dir', d='d1'), O('close_dir', d='d0'), O('close_volume', v='v0'), O('remount')]
+        H.append(dict(id='MT%d-%s-bpc%d-c%d' % (k, 'f32' if v['fat32'] else 'f16', v['bpc'], v['clusters']), src='mount', image=dict(vols=[v]), bounds=[0], limits=[4, 4, 1], ops=ops))
+    return H
